@@ -313,7 +313,7 @@ def main():
         for m in muts:
             t = suite.get(m['id'], '')
             noticed = not (' failed' not in t and ' error' not in t and ' passed' in t)
-            c = tot.setdefault(m['check'], {'all': 0, 'suite': 0, 'caught': 0, 'silent': 0, 'other': 0})
+            c = tot.setdefault(m['check'], {'all': 0, 'suite': 0, 'caught': 0, 'silent': 0, 'other': 0, 'notrun': 0})
             c['all'] += 1
             if noticed:
                 c['suite'] += 1
@@ -327,6 +327,8 @@ def main():
                 rows.append('| %s | %s | %s line %d | `%s` -> `%s` | %s |' % (
                     m['id'], m['check'], m['func'], m['line'], m['old'].strip(), m['new'].strip() or '(removed)',
                     triage.get(key, triage.get(m['id'], 'not triaged'))))
+            elif rc == 'not-run':
+                c['notrun'] += 1
             else:
                 c['other'] += 1
                 rows.append('| %s | %s | %s line %d | `%s` -> `%s` | exit %s |' % (
@@ -338,13 +340,13 @@ def main():
                'check on every mutant the suite does not notice.' %
                subprocess.run(['git', '-C', '/repo', 'rev-parse', '--short', 'HEAD'], capture_output=True,
                               text=True).stdout.strip(), '',
-               '| check | mutants | noticed by the suite | not noticed: caught by the check | not noticed: check silent | harness error / timeout |',
-               '|---|---|---|---|---|---|']
+               '| check | mutants | noticed by the suite | not noticed: caught by the check | not noticed: check silent | harness error / timeout | not noticed, not run (AUTOMUT_STRIDE subset) |',
+               '|---|---|---|---|---|---|---|']
         for k in sorted(tot):
             c = tot[k]
-            out.append('| %s | %d | %d | %d | %d | %d |' % (k, c['all'], c['suite'], c['caught'], c['silent'], c['other']))
-        s = {k: sum(c[k] for c in tot.values()) for k in ('all', 'suite', 'caught', 'silent', 'other')}
-        out.append('| all | %d | %d | %d | %d | %d |' % (s['all'], s['suite'], s['caught'], s['silent'], s['other']))
+            out.append('| %s | %d | %d | %d | %d | %d | %d |' % (k, c['all'], c['suite'], c['caught'], c['silent'], c['other'], c['notrun']))
+        s = {k: sum(c[k] for c in tot.values()) for k in ('all', 'suite', 'caught', 'silent', 'other', 'notrun')}
+        out.append('| all | %d | %d | %d | %d | %d | %d |' % (s['all'], s['suite'], s['caught'], s['silent'], s['other'], s['notrun']))
         out += ['', 'Mutants neither the suite nor the check notices, with the reason (equivalent = no input '
                 'distinguishes it; outside = the difference lies outside what the statement constrains):', '',
                 '| id | check | site | change | triage |', '|---|---|---|---|---|'] + rows
